@@ -123,7 +123,7 @@ def run_case(ctx, case):
         st = State()
         d = sym_decimal("c", st, p)
         c = d.fields[0].t
-        ex = new_executor(ctx, prog, contracts={"i128_magnitude": K.c_magnitude})
+        ex = new_executor(ctx, prog, contracts={"i128_magnitude": K.c_magnitude_alts})
         outs = ex.explore(start_state(f, [ref_to(d) if byref else d], None, st))
         res.absorb(ex, outs)
         for i, o in enumerate(outs):
